@@ -154,6 +154,35 @@ fn eval_surface(root: &PathBuf, tag: usize, w: i32, h: i32, px: &[u32]) -> Resul
             }
             dt.get_data_mut()[i] = old;
         }
+        // the views are the surface's memory also while a layer is open (under a clip rectangle the
+        // layer is smaller than the surface): writes through the mutable views are seen by the
+        // others and survive the pop of the untouched layer
+        if n > 0 && n <= 64 {
+            dt.push_clip_rect(IntRect::new(IntPoint::new(0, 0), IntPoint::new((w - 1).max(1), h)));
+            dt.push_layer(1.0);
+            let (lm, lb) = (dt.get_data_mut().len(), dt.get_data_u8_mut().len());
+            if dt.get_data() != px || lm != n || lb != 4 * n {
+                return Err(("views-with-open-layer".into(), format!("get_data {:x?}, get_data_mut len {}, get_data_u8_mut len {}", dt.get_data(), lm, lb)));
+            }
+            let i = n - 1;
+            dt.get_data_mut()[i] = 0xa1b2c3d4;
+            if dt.get_data()[i] != 0xa1b2c3d4 || dt.get_data_u8()[4 * i..4 * i + 4] != [0xd4, 0xc3, 0xb2, 0xa1] {
+                return Err(("word-write-with-open-layer-visible".into(), format!("index {}: get_data {:#010x}", i, dt.get_data()[i])));
+            }
+            dt.get_data_u8_mut()[0] = 0x5a;
+            if dt.get_data()[0] & 0xff != 0x5a {
+                return Err(("byte-write-with-open-layer-visible".into(), format!("{:#010x}", dt.get_data()[0])));
+            }
+            dt.pop_layer();
+            dt.pop_clip();
+            let mut want = px.to_vec();
+            want[i] = 0xa1b2c3d4;
+            want[0] = (want[0] & 0xffffff00) | 0x5a;
+            if dt.get_data() != &want[..] {
+                return Err(("writes-with-open-layer-survive-the-pop".into(), format!("{:x?} expected {:x?}", dt.get_data(), want)));
+            }
+            dt.get_data_mut().copy_from_slice(px);
+        }
         // PNG export
         if w > 0 && h > 0 {
             let path = tmp_png(root, tag);
